@@ -320,8 +320,9 @@ def sd8c(F, R):
     v2k = F.fn("sdcard::proto::CsdV2::card_capacity_blocks")
 
     def ret_term(fn):
+        from .mir import expand_local_calls
         rets = [fn.term_of_rvalue(s["rv"], b) for b, i, s in fn.stmts() if s["k"] == "Assign" and s["p"]["l"] == 0 and not s["p"]["proj"]]
-        return rets[0] if len(rets) == 1 else None
+        return expand_local_calls(F, rets[0]) if len(rets) == 1 else None
 
     from .poly import peq, ADD, SUB, MUL, C
     from .mir import subterms, strip_refs
